@@ -163,6 +163,9 @@ func (r *Report) Finish(verbose bool) int {
 		}
 	}
 	evDir := filepath.Join(r.VerifDir, "evidence")
+	if d := os.Getenv("GZV_EVIDENCE_DIR"); d != "" {
+		evDir = d // development tools (mutant / seed runs) must not overwrite the evidence of the unchanged tree
+	}
 	repDir := filepath.Join(evDir, "replay")
 	os.MkdirAll(repDir, 0o755)
 	old, _ := filepath.Glob(filepath.Join(repDir, r.Property+"-*.json"))
